@@ -987,6 +987,20 @@ pub fn layout(rng: &mut Rng, toks: &[Tok], fancy: bool) -> String {
             s.push('\n');
         }
     }
+    // the text may end inside trivia: a line comment running to the end of the input (no final
+    // newline), a block comment, or bare whitespace
+    if fancy {
+        match rng.below(10) {
+            0 => s.push_str(" // a comment that runs to the end of the input"),
+            1 => s.push_str("\n//"),
+            2 => {
+                s.push(' ');
+                s.push_str(&gen_block_comment(rng, 0));
+            }
+            3 => s.push_str(" \t"),
+            _ => {}
+        }
+    }
     s
 }
 
